@@ -5,7 +5,8 @@ From Coq Require Import Reals ZArith List Bool Arith.
 From Coquelicot Require Import Coquelicot.
 From PyrexLib Require Import DFT.
 From PyrexModel Require Import NoiseModel.
-From PyrexProofs Require Import C17_proofs.
+From PyrexGen Require Import Gen_noise.
+From PyrexProofs Require Import C17_proofs C17_scale.
 Import ListNotations.
 Local Open Scope R_scope.
 
@@ -76,9 +77,36 @@ Theorem fft_mean_square_parseval : forall M nf A Phi rms, (0 < M)%nat -> (0 < nf
 Proof. exact fft_mean_square. Qed.
 Print Assumptions fft_mean_square_parseval.
 
-(* unit amplitudes give exactly the requested RMS (band without DC and Nyquist bins;
-   partial: those two bins, and the continuous-time mean square of the Full variant, are not covered) *)
-Theorem unit_amp_rms_partial : forall z,
+(* the same for EVERY band (DC amplitude zero - see dc_amplitude_is_zero -, Nyquist bin allowed): with the doubled
+   Nyquist weight that bin contributes 2 cos^2(phase) times its squared amplitude, every other bin its squared
+   amplitude; in terms of the published basis *)
+Theorem fft_mean_square_every_band : forall z,
+  let M := fn_M z in let bins := fn_bins z in let nf := length bins in
+  let A := scatter bins (fn_amps z) in let Phi := scatter bins (fn_phases z) in
+  (0 < M)%nat -> (0 < nf)%nat -> length (fn_amps z) = nf -> A 0%nat = 0 ->
+  / INR M * Rsum (fun n => (fft_value M nf A Phi n * fn_rms z) * (fft_value M nf A Phi n * fn_rms z)) M
+  = fn_rms z * fn_rms z * (sum_pairs (fun a b => a * a * nyq_factor M Phi b) bins (fn_amps z) / INR nf).
+Proof. exact fft_mean_square_published. Qed.
+Print Assumptions fft_mean_square_every_band.
+
+(* unit amplitudes, band not containing the DC bin: the mean square over the period is rms^2 exactly, except that a
+   Nyquist bin in the band (even M) adds rms^2 (2 cos^2(phi_Nyq) - 1)/n: the samples of a Nyquist-frequency cosine
+   depend on its phase (zero on average over a uniform phase).  A band touching 0 publishes amplitude 0 for its DC bin,
+   which still counts in n: fft_mean_square_every_band then gives rms^2 (n-1)/n for a unit-amplitude specification. *)
+Theorem unit_amp_mean_square : forall z,
+  let M := fn_M z in let bins := fn_bins z in let nf := length bins in
+  let A := scatter bins (fn_amps z) in let Phi := scatter bins (fn_phases z) in
+  (0 < M)%nat -> (0 < nf)%nat -> length (fn_amps z) = nf ->
+  List.Forall (fun a => a = 1) (fn_amps z) -> ~ In 0%nat bins ->
+  / INR M * Rsum (fun n => (fft_value M nf A Phi n * fn_rms z) * (fft_value M nf A Phi n * fn_rms z)) M
+  = fn_rms z * fn_rms z *
+    (1 + (if (Nat.even M && existsb (Nat.eqb (M / 2)) bins)%bool
+          then 2 * (cos (Phi (M / 2)%nat) * cos (Phi (M / 2)%nat)) - 1 else 0) / INR nf).
+Proof. exact unit_amp_mean_square_lemma. Qed.
+Print Assumptions unit_amp_mean_square.
+
+(* ... in particular exactly the requested RMS when the band has neither DC nor Nyquist bin *)
+Theorem unit_amp_rms : forall z,
   let M := fn_M z in let bins := fn_bins z in let nf := length bins in
   let A := scatter bins (fn_amps z) in let Phi := scatter bins (fn_phases z) in
   (0 < M)%nat -> (0 < nf)%nat -> length (fn_amps z) = nf ->
@@ -87,7 +115,33 @@ Theorem unit_amp_rms_partial : forall z,
   / INR M * Rsum (fun n => (fft_value M nf A Phi n * fn_rms z) * (fft_value M nf A Phi n * fn_rms z)) M
   = fn_rms z * fn_rms z.
 Proof. exact unit_amp_rms_lemma. Qed.
-Print Assumptions unit_amp_rms_partial.
+Print Assumptions unit_amp_rms.
+
+(* Full variant: frequencies m_i df (distinct, 0 < 2 m_i < M), M = 1/(df dt) samples = one common period, ANY window
+   start ts: the mean square is rms^2 sum a_i^2 / n, hence rms^2 exactly for unit amplitudes *)
+Theorem full_mean_square_over_period : forall ms df dt (M : nat) amps phases rms ts,
+  (0 < M)%nat -> INR M * df * dt = 1 -> NoDup ms -> (forall m, In m ms -> interior M m = true) ->
+  ms <> [] -> length amps = length ms -> length phases = length ms ->
+  / INR M * Rsum (fun n => let v := full_noise_value (map (fun m => INR m * df) ms) amps phases rms (ts + INR n * dt) in v * v) M
+  = rms * rms * (list_sum_R (map (fun a => a * a) amps) / INR (length ms)).
+Proof. exact full_mean_square_lemma. Qed.
+Print Assumptions full_mean_square_over_period.
+
+Theorem full_unit_amp_rms : forall ms df dt (M : nat) amps phases rms ts,
+  (0 < M)%nat -> INR M * df * dt = 1 -> NoDup ms -> (forall m, In m ms -> interior M m = true) ->
+  ms <> [] -> length amps = length ms -> length phases = length ms -> List.Forall (fun a => a = 1) amps ->
+  / INR M * Rsum (fun n => let v := full_noise_value (map (fun m => INR m * df) ms) amps phases rms (ts + INR n * dt) in v * v) M
+  = rms * rms.
+Proof. exact full_unit_amp_rms_lemma. Qed.
+Print Assumptions full_unit_amp_rms.
+
+(* the scale the code passes to np.random.rayleigh for its default amplitudes (read from the source on every run,
+   coq/Gen/Gen_noise.v) satisfies 2 sigma^2 = 1; with E a^2 = 2 sigma^2 for a ~ Rayleigh(sigma) (cited) the default
+   amplitudes have E a^2 = 1, i.e. give the requested RMS on average *)
+Theorem rayleigh_scale_unit_second_moment :
+  2 * (rayleigh_scale_fft * rayleigh_scale_fft) = 1 /\ 2 * (rayleigh_scale_full * rayleigh_scale_full) = 1.
+Proof. exact (conj rayleigh_scale_fft_second_moment rayleigh_scale_full_second_moment). Qed.
+Print Assumptions rayleigh_scale_unit_second_moment.
 
 (* rms = sqrt(k_B T R bandwidth) when temperature and resistance are given; an explicit rms wins *)
 Theorem rms_kTRB : forall T Rs fmin fmax,
